@@ -145,6 +145,10 @@ func init() {
 		Harnesses: []Harness{
 			{Pkg: "jpegls/lossless", Fn: "VerifC03Regular", Desc: "one regular-mode sample, real encodeRegularSample and decodeRegularSample in lock-step from an arbitrary context state: decoder reconstructs the sample, states stay equal, invariant preserved, Golomb precondition holds",
 				Bounds: [2]string{"P in {7,12} x context sign +; P=16 covered in thorough", "every P 2..16 x 2 context ids (one per sign)"}, Params: [2]map[string]int64{P("nP", 2, "nqs", 1), P("nP", 15, "nqs", 2)}, Stubs: []string{golombCut}, BudgetS: [2]int{400, 3300}},
+			{Pkg: "jpegls/lossless", Fn: "VerifC03Component", Desc: "real encodeComponent -> decodeComponent (single-component coder with its inline regular-mode code, neighbour bookkeeping, run mode and run interruption on the concrete prefix) on a 3x2 image whose last sample and whose context state are symbolic",
+				Bounds: [2]string{"P=7, 2 value patterns (both context signs)", "every P 2..16"}, Params: [2]map[string]int64{P("nP", 1), P("nP", 15)}, Stubs: []string{golombCut}, BudgetS: [2]int{400, 3300}},
+			{Pkg: "jpegls/lossless", Fn: "VerifC03BitChannel", Desc: "GolombWriter.WriteBits/Flush -> GolombReader.ReadBits: K writes of up to 31 symbolic bits (the solver chooses the bytes, so every FF-stuffing case incl. two stuffed bytes in one flush occurs), values returned, stuffing rule on the bytes",
+				Bounds: [2]string{"K <= 3 writes, widths {31,16,9,1}", "K <= 4, widths {31,16,9,1,24,7}"}, Params: [2]map[string]int64{P("maxK", 3, "widths", 4), P("maxK", 4, "widths", 6)}},
 			{Pkg: "jpegls/lossless", Fn: "VerifC03Golomb", Desc: "real limited-length Golomb code: EncodeMappedValue -> DecodeValue for symbolic mapped values, k 0..8, six precisions, with following bits and JPEG-LS bit stuffing checked",
 				Bounds: [2]string{"k <= 8, P in {2,3,7,8,12,16}", "k <= 16"}, Params: [2]map[string]int64{P("maxK", 8), P("maxK", 16)}},
 		}})
@@ -153,13 +157,33 @@ func init() {
 		Harnesses: []Harness{
 			{Pkg: "jpegls/nearlossless", Fn: "VerifC07Traits", Desc: "quantise -> modulo RANGE -> dequantise -> fix-up kernel for every precision: |reconstruction - x| <= NEAR and 0 <= reconstruction <= MAXVAL for all (prediction, sample)",
 				Bounds: [2]string{"P 2..16, NEAR in {0,1,2,3,min(255,MAXVAL/2)}", "P 2..16, 20 NEAR values up to min(255,MAXVAL/2)"}, BudgetS: [2]int{300, 2400}},
+			{Pkg: "jpegls/nearlossless", Fn: "VerifC07Component", Desc: "real near-lossless encodeComponent -> decodeComponent (inline regular-mode code, run mode on the concrete prefix) on a 3x2 image whose last sample and context state are symbolic: every decoded sample within NEAR and in range; encoder and decoder use the same (k, LIMIT, qbpp)",
+				Bounds: [2]string{"P=6, NEAR=1", "P in {6,8,12} x NEAR in {1,2,0,3} (within the wall budget)"}, Params: [2]map[string]int64{P("nP", 1, "nNear", 1), P("nP", 3, "nNear", 4)}, Stubs: []string{golombCut}, BudgetS: [2]int{400, 3300}},
 			{Pkg: "jpegls/nearlossless", Fn: "VerifC07Regular", Desc: "one regular-mode sample of the near-lossless coder in lock-step from an arbitrary context state: |decoded - x| <= NEAR, range, encoder reconstruction == decoder reconstruction, states equal",
 				Bounds: [2]string{"P=8, NEAR=0, 1 context", "P in {8,12}, NEAR in {0,1,2,3}, 2 contexts (within the wall budget)"}, Params: [2]map[string]int64{P("fix.Pi", 1, "fix.near", 0, "fix.q", 0), P("nP", 2)}, Stubs: []string{golombCut}, BudgetS: [2]int{400, 3300}},
 		}})
 	reg(Check{Property: "C14",
 		Assumptions: []string{lsInv, "reference = transcription of T.87 A.4.2-A.6.2 (refRegular in harness/jpegls/lossless/zz_verif_c14.go); NEAR = 0; run mode, the bit-exact stream, cross-decoding between the two packages and the H.3 vector are NOT covered"},
 		Harnesses: []Harness{
+			{Pkg: "jpegls/lossless", Fn: "VerifC14Params", Desc: "default coding parameters for every precision 2..16 and every NEAR 0..min(255,MAXVAL/2) (NEAR symbolic): T1,T2,T3 equal T.87 C.2.4.1.1.1; RANGE, qbpp, LIMIT equal A.2.1",
+				Bounds: [2]string{"all (P, NEAR) pairs", "same"}},
 			{Pkg: "jpegls/lossless", Fn: "VerifC14RegularVsRef", Desc: "library encoder's regular-mode step vs the T.87 procedure from an arbitrary state: same Golomb parameter, same mapped error value, same A/B/C/N afterwards",
 				Bounds: [2]string{"P in {7,12}, 1 context id", "every P 2..16, 2 context ids"}, Params: [2]map[string]int64{P("nqs", 1), P("nqs", 2)}, Stubs: []string{"EncodeMappedValue replaced by a recorder of (k, mapped) under the engine"}, BudgetS: [2]int{400, 3300}},
+		}})
+
+	hdrCut := "sample loops (pixel conversion, table optimisation, scan coding) replaced by no-ops under the engine so that width/height can range over the whole 16-bit field; complete frames with real entropy-coded data are covered by VerifC16Stream on tiny images"
+	c16h := func(pkg string) Harness {
+		return Harness{Pkg: pkg, Fn: "VerifC16Header", Desc: "Encode with one dimension symbolic over 1..65535 (other dimension 1, or both in 1..3), symbolic precision / predictor / quality / NEAR: an independent strict marker walker accepts the frame (SOI first, consistent segment lengths, one scan, EOI last, nothing after) and the frame/scan header fields equal the arguments",
+			Bounds: [2]string{"1 or 3 components", "same"}, Stubs: []string{hdrCut}}
+	}
+	reg(Check{Property: "C16",
+		Assumptions: []string{"JPEG 2000 tile-part lengths (Psot, TLM), JPEG extended and RLE frames are not covered by this check (RLE structure: C01; MQ byte rules: the MQ harness below)"},
+		Harnesses: []Harness{
+			c16h("jpeg/lossless"), c16h("jpeg/lossless14sv1"), c16h("jpeg/baseline"), c16h("jpegls/lossless"), c16h("jpegls/nearlossless"),
+			{Pkg: "jpeg/lossless", Fn: "VerifC16Stream", Desc: "complete JPEG lossless frames with real entropy-coded data (nothing stubbed), all samples symbolic, walked by the strict marker walker",
+				Bounds: [2]string{"2x1, 1x2 at P in {8,16}, predictors 1..7", "+ 1x1x3, 2x2, P=3"}},
+			{Pkg: "jpeg/lossless", Fn: "VerifC02BitChannel", Label: "huffman-bit-writer", Desc: "Huffman bit writer: no FF in the entropy-coded data without a following 00 (symbolic values, widths around byte boundaries)", Bounds: [2]string{"K <= 2", "K <= 3"}, Params: [2]map[string]int64{P("maxK", 2), P("maxK", 3)}},
+			{Pkg: "jpegls/lossless", Fn: "VerifC03BitChannel", Label: "jpegls-bit-writer", Desc: "JPEG-LS bit writer: a byte after FF has its top bit clear", Bounds: [2]string{"K <= 3", "K <= 4"}, Params: [2]map[string]int64{P("maxK", 3, "widths", 4), P("maxK", 4, "widths", 6)}},
+			{Pkg: "jpeg2000/mqc", Fn: "VerifC20MQ", Label: "mq-byteout", Desc: "MQ encoder output: a byte after FF is at most 8F, the segment does not end in FF (all sequences of k decisions)", Bounds: [2]string{"k = 6", "k = 9"}, Params: [2]map[string]int64{P("k", 6, "symstates", 0), P("k", 9, "symstates", 0)}, Enumerative: true},
 		}})
 }
